@@ -213,3 +213,23 @@ class Report:
         print(f"{self.pid} [{self.tier}] obligations={n_obl} discharged={n_dis} refuted={len(self.refutations)} "
               f"known={len(matched)} new={len(new)} functions={len(self.functions_analysed)} wall={wall:.2f}s")
         return 1 if new else 0
+
+
+
+class ExactOnly:
+    """A view of a report for rules that compare what one evaluator run derived with a specification: on a run that was not
+    exact (something unmodelled, something knowingly lost) a difference is no finding, so `refuted` becomes `unmodelled`.
+    Everything else passes through."""
+
+    def __init__(self, rep, interp):
+        self._rep, self._I = rep, interp
+
+    def __getattr__(self, name):
+        return getattr(self._rep, name)
+
+    def refuted(self, rule, fi, node, what, **kw):
+        I = self._I
+        if I.unmodelled or I.lossy:
+            why = I.lossy[0]["why"] if I.lossy else "unmodelled value: " + str(I.unmodelled[0]["tag"])
+            return self._rep.unmodelled(rule, fi, node, f"{what[:160]} — but the run was not exact ({str(why)[:80]}): no verdict")
+        return self._rep.refuted(rule, fi, node, what, **kw)
